@@ -101,11 +101,14 @@ CLAIMS['C05'] = dict(
     design_ref='DESIGN.md 5 C05')
 
 CLAIMS['C09'] = dict(
-    text='PARTIAL: proof for the machinery rewrite is built from: SourceMapBuilder::add_token re-interns the resolved source / name strings of a token and keeps '
-         'generated position, original position and range flag; add_source_with_id keeps the old-id memo (sources_mapping) in step with the table; set_source_contents '
-         'touches only the given id; into_sourcemap reports exactly the builder state. The loop of rewrite_with_mapping, strip_prefixes and SourceMapHermes::rewrite '
-         '(closure capturing a mutable reference: outside the Verus subset) are covered only by BOUNDED stand-ins (bounded/: rewrite, hermes_rewrite), labelled bounded in evidence.',
-    note=_TB + 'bounded stand-ins enumerate a stated finite space through the public API and are never counted as discharged obligations.',
+    text='Unbounded proof for the in-memory options without prefix stripping: the loop of SourceMap::rewrite_with_mapping is verified against the statement token by token -- '
+         'every token keeps its generated position, original line / column and range flag and resolves to the same source string and (unless names are dropped) name string; the '
+         'new source and name tables have no duplicates and nothing unreferenced; mapping[new id] is an old id of the same source; contents follow their source; file and debug id '
+         'are preserved -- on top of the builder contracts (add_token re-interns what the token resolves to, tables mirror the interning maps, into_sourcemap hands everything over). '
+         'PARTIAL: strip_prefixes / the "~" common prefix and SourceMapHermes::rewrite (closure capturing a mutable reference: outside the Verus subset) are covered only by BOUNDED '
+         'stand-ins (bounded/: rewrite, hermes_rewrite), labelled bounded in evidence.',
+    note=_TB + 'Preconditions of the proved contract: load_local_source_contents off (the property itself restricts to in-memory options), no strip_prefixes, fewer than 2^32-256 tokens. '
+         'bounded stand-ins enumerate a stated finite space through the public API and are never counted as discharged obligations.',
     design_ref='DESIGN.md 5 C09')
 
 CLAIMS['C10'] = dict(
@@ -152,7 +155,7 @@ NOT_APPLICABLE['C16'] = ('concurrency (interleavings of threads sharing a Source
 # parts of each property that no discharged obligation covers (reported in every evidence file, never counted)
 NOT_COVERED = {
     'C10': ['the sweep of adjust_mappings (skip / overlap / clip / advance, displacement arithmetic, final sort): bounded stand-in only', 'positions >= 2^31 (as i32)'],
-    'C09': ['rewrite_with_mapping loop, strip_prefixes, find_common_prefix ("~"), load_local_source_contents (filesystem; excluded by the property)', 'SourceMapHermes::rewrite function-map permutation (bounded stand-in only)'],
+    'C09': ['strip_prefixes, find_common_prefix ("~") (bounded stand-in rewrite only)', 'load_local_source_contents (filesystem; excluded by the property)', 'SourceMapHermes::rewrite function-map permutation (bounded stand-in only)'],
     'C05': ['dependencies (serde_json, url, bitvec, data-encoding, base64-simd, debugid)', 'sourceview.rs, js_identifiers.rs, detector.rs line scan, Display/Debug impls, ram_bundle.rs',
             'flatten (+ off_col / + off_line overflow, design-phase defect D6), rewrite, adjust_mappings, range bitfield writer (D4), decode_hermes', 'allocation in proportion to the input; wall-clock (only termination is proved)'],
     'C08': ['flatten (token translation, contents, ignore list, nested indexes)', 'agreement lemma lookup vs flatten', 'DecodedMap::lookup_token dispatch (assumed naming)'],
